@@ -357,7 +357,47 @@ def run_all_small(case):
     return info(case)
 
 
+# --------------------------------------------------------------------------------------------------
+# scale invariance: the reversible MLE of s*C is the MLE of C (counts may be re-weighted to tiny or huge magnitudes)
+
+@st.composite
+def scale_case(draw):
+    case = draw(mle_case(5))
+    case["scale_exp"] = draw(st.sampled_from([-30, -20, -10, 10, 20]))     # power of two: the rescaling is exact
+    case["impl"] = draw(st.sampled_from(["py", "pyx", "builder"]))
+    return case
+
+
+def run_scale_invariance(case):
+    A = R.case_matrix(case["mat"]).astype(float)
+    s = 2.0 ** case["scale_exp"]
+
+    def est(M):
+        if case["impl"] == "builder":
+            with warnings.catch_warnings(record=True) as w:
+                warnings.simplefilter("always")
+                _, T, pi = builders.mle(M.copy())
+            return np.asarray(T, dtype=float), np.asarray(pi, dtype=float).ravel(), any("converge" in str(x.message).lower() for x in w)
+        return run_impl(case["impl"], M, max_iter=PY_SWEEPS)
+    T1, pi1, w1 = est(A)
+    if w1:
+        raise Skip("reference run did not converge within the sweep budget")
+    T2, pi2, w2 = est(A * s)
+    require(np.all(np.isfinite(T2)) and np.max(np.abs(T2.sum(axis=1) - 1)) <= TOL_ROW,
+            "MLE of rescaled counts is not a stochastic matrix", scale="2^%d" % case["scale_exp"], T=T2.tolist())
+    F = pi2[:, None] * T2
+    require(np.max(np.abs(F - F.T)) <= 1e-8, "MLE of rescaled counts is not reversible w.r.t. its populations",
+            scale="2^%d" % case["scale_exp"], worst=float(np.max(np.abs(F - F.T))), impl=case["impl"])
+    # the stopping rule is an ABSOLUTE tolerance on a pseudo-likelihood, so a rescaled run may stop at another sweep:
+    # compare through the likelihood on the ORIGINAL counts (both must be at the optimum) and through T loosely
+    L1, L2 = R.loglik(A, T1), R.loglik(A, T2)
+    require(L2 >= L1 - 1e-6 * (1 + abs(L1)), "MLE of rescaled counts is less likely than the MLE of the original counts",
+            L_original=L1, L_rescaled=L2, scale="2^%d" % case["scale_exp"], impl=case["impl"])
+    return info(case, ["scale=2^%d" % case["scale_exp"], "impl=" + case["impl"], "rescaled_warned=%s" % w2])
+
+
 CLAUSES = [
+    Clause("scale_invariance", scale_case(), run_scale_invariance, quick=300, thorough=3000),
     Clause("terminates_builder", mle_case(6, with_container=True), run_terminates_builder, quick=500, thorough=5000),
     Clause("terminates_impls", mle_case(6), run_terminates_impls, quick=400, thorough=2500),
     Clause("terminates_impls_large", mle_case(9), run_terminates_impls, quick=0, thorough=2000),
